@@ -1,6 +1,16 @@
 package checks
 
-import "fmt"
+import (
+	"fmt"
+	"os"
+	"os/exec"
+	"path/filepath"
+	"strings"
+	"sync"
+	"time"
+
+	"verif/corpus"
+)
 
 // C04: conflicts reported exactly when not LALR(1) (reduced form: the
 // precedence rule and the kernel key, decided for all qualifier values).
@@ -41,8 +51,26 @@ func C04(c *Ctx) int {
 		hs = append(hs, Harness{Name: fmt.Sprintf("lr1.KernelKey[items=%d]", k), Pkg: pkg, Func: "H_KernelKey", Params: map[string]int{"items": k},
 			Reach: []string{"equal", "different"}, Bounds: fmt.Sprintf("two item sets of %d arbitrary items each (prod<4, dot<3, lookahead<3)", k)})
 	}
+	// whole-table harnesses: the real ConstructLALR on the conflict corpus under
+	// an arbitrary map order, compared with the counts of my reference LALR(1)
+	// construction
+	conf := corpus.ParserConflicts()
+	committed, _ := os.ReadFile(filepath.Join(VerifDir, "harness/repo/lr1_lalr_h.go"))
+	if string(committed) != corpus.LALRHarnessGo(conf) {
+		o.Broken = append(o.Broken, "harness/repo/lr1_lalr_h.go is stale: run `go run ./cmd/genlalr > harness/repo/lr1_lalr_h.go`")
+	}
+	for i, g := range conf {
+		if !c.Thorough() && i%2 == 1 && g.Naming == "" {
+			continue // quick: every other plain item, every renamed item
+		}
+		ref := g.LALR()
+		items, acts := ref.Counts()
+		hs = append(hs, Harness{Name: "lr1.LALRTable[" + g.Name + "]", Pkg: pkg, Func: corpus.LALRFuncName(g), MapOrder: true, Quiet: true,
+			Params: map[string]int{"states": ref.States, "items": items, "actions": acts, "conflicts": ref.Conflicts},
+			Reach:  []string{"built"}, MaxPaths: 3000,
+			Bounds: "grammar " + g.Src + "; every range over a built-in map inside ConstructLALR in every order (all n! for n<=4 entries, rotations and reversals above); states, items, actions, conflicting cells and the verdict against my reference LALR(1) construction"})
+	}
 	for _, h := range hs {
-		h.Quiet = false
 		r, err := c.RunHarness(prog, h)
 		if err != nil {
 			o.Broken = append(o.Broken, err.Error())
@@ -52,9 +80,118 @@ func C04(c *Ctx) int {
 		c.HandleRepoCex(o, r, nil)
 	}
 	c.ValidateSamples(o, nil, 6)
-	o.Assumptions = []string{"grammar shapes are fixed (seven small conflict grammars); every Precedence (64-bit) and Associativity is symbolic and the whole of ConstructLALR (closure, goto, look-ahead propagation, createActions, resolveConflicts) is executed",
+	c.tableByProduct(o)
+	o.Assumptions = []string{"lr1.LALRTable: the reference is my own canonical-LR(1)-then-merge construction over my own expansion of the sugar; it agrees with lox --report state by state on every corpus and random grammar on the unchanged tree (by-product below)",
+		"qualifier harnesses: grammar shapes are fixed (nine small conflict grammars); every Precedence (64-bit) and Associativity is symbolic and the whole of ConstructLALR (closure, goto, look-ahead propagation, createActions, resolveConflicts) is executed",
 		"precedence <= 0 stands for 'no qualifier', as the front end leaves it"}
-	o.Outside = []string{"the verdict for arbitrary grammars (structural; not decided): rejection of an unambiguous LALR(1) grammar and acceptance of a non-LALR(1) grammar outside these shapes",
+	o.Outside = []string{"the verdict for grammars outside the corpus (structural; enumerated, not decided): the solver decides over map orders and qualifier values, not over grammar shapes",
 		"resolution direction at equal levels for @right is C05's known finding and is not asserted here"}
 	return c.Finish(o)
+}
+
+// tableByProduct (concrete, not solver-decided): every parser corpus item and a
+// batch of random grammars goes through the real binary with --report; the
+// printed table is compared state by state (items with look-aheads, actions,
+// conflict marks, targets) with my reference LALR(1) construction, and the
+// verdict (accepted / "grammar has conflicts") with the reference's.
+func (c *Ctx) tableByProduct(o *Outcome) {
+	lox, err := c.BuildLox()
+	if err != nil {
+		o.Broken = append(o.Broken, "table by-product: "+err.Error())
+		return
+	}
+	var gs []*corpus.Grammar
+	gs = append(gs, corpus.ParserLanguageAll(true)...)
+	gs = append(gs, corpus.ParserConflicts()...)
+	gs = append(gs, corpus.ParserRecovery()...)
+	gs = append(gs, corpus.ParserPrecedence()...)
+	nRand := 300
+	if c.Thorough() {
+		nRand = 3000
+	}
+	gs = append(gs, corpus.RandomGrammars(int64(c.Seed)+1, nRand)...)
+	type res struct {
+		name, diff, out string
+	}
+	results := make([]res, len(gs))
+	var wg sync.WaitGroup
+	sem := make(chan bool, 16)
+	compared, rejected := 0, 0
+	var mu sync.Mutex
+	for i, g := range gs {
+		wg.Add(1)
+		sem <- true
+		go func(i int, g *corpus.Grammar) {
+			defer wg.Done()
+			defer func() { <-sem }()
+			dir, _ := os.MkdirTemp(c.Scratch, "tbl")
+			defer os.RemoveAll(dir)
+			os.WriteFile(filepath.Join(dir, "go.mod"), []byte("module x\ngo 1.23\n"), 0644)
+			os.WriteFile(filepath.Join(dir, "g.lox"), []byte(g.Lox()), 0644)
+			cmd := exec.Command(lox, "--report", ".")
+			cmd.Dir = dir
+			outB, runErr := runTimeout(cmd, 2*time.Minute)
+			out := string(outB)
+			results[i].name = g.Name
+			got, err := corpus.ParseReport(out)
+			if err != nil {
+				results[i].diff = "no table printed: " + err.Error()
+				results[i].out = out
+				return
+			}
+			ref := g.LALR()
+			if ref == nil {
+				return
+			}
+			annotated := false
+			for _, r := range g.Rules {
+				for _, p := range r.Prods {
+					if p.Assoc != "" {
+						annotated = true
+					}
+				}
+			}
+			mu.Lock()
+			compared++
+			if ref.Conflicts > 0 {
+				rejected++
+			}
+			mu.Unlock()
+			if annotated {
+				// qualifiers may remove actions: compare the item sets only
+				if d := corpus.DiffItemSets(ref, got); d != "" {
+					results[i].diff, results[i].out = d, out
+				}
+				return
+			}
+			if d := corpus.DiffTables(ref, got); d != "" {
+				results[i].diff, results[i].out = d, out
+				return
+			}
+			says := strings.Contains(out, "grammar has conflicts")
+			_ = runErr // the scratch directory has no Go sources, so lox always exits 1 here; the verdict is the diagnostic
+			if says != (ref.Conflicts > 0) {
+				results[i].diff = fmt.Sprintf("verdict: reference has %d conflicting cells, lox said conflicts=%v", ref.Conflicts, says)
+				results[i].out = out
+			}
+		}(i, g)
+	}
+	wg.Wait()
+	bad := []string{}
+	for i, r := range results {
+		if r.diff == "" {
+			continue
+		}
+		bad = append(bad, r.name)
+		if len(bad) <= 6 {
+			o.Violations = append(o.Violations, fmt.Sprintf("VIOLATION property=C04 replay=%s", c.SaveReplay("lalr-table-"+r.name,
+				map[string]any{"item": r.name, "grammar": gs[i].Src, "spec": gs[i].Lox(), "what": "lox --report differs from the reference LALR(1) table (concrete by-product of the corpus driver, not solver-decided)", "difference": firstN(r.diff, 3000), "output": firstN(r.out, 3000)})))
+		}
+	}
+	if o.Extra == nil {
+		o.Extra = map[string]any{}
+	}
+	o.Extra["grammars_compared_with_reference_lalr1_not_solver_decided"] = compared
+	o.Extra["of_which_not_lalr1"] = rejected
+	o.Extra["grammars_whose_table_differs"] = bad
 }
